@@ -163,3 +163,24 @@ fn rerooted_toml_datetime_prints_like_the_real_crate() {
     }
     assert!(n > 50_000);
 }
+
+#[test]
+fn rerooted_error_rendering_equals_the_real_crate() {
+    let mut n = 0;
+    let mut docs: Vec<String> = Vec::new();
+    for v in toml_test_data::invalid() {
+        if let Ok(s) = std::str::from_utf8(v.fixture) {
+            docs.push(s.to_owned());
+        }
+    }
+    for s in ["a = ", "a = 1\nb = \n", "é = é", "\"é\" = é", "a = 1\r\nb = ?\r\n", "\n\n[", "x", "a = \"\\u000é\"", "a=1\n\n\nb=2\n]"] {
+        docs.push(s.to_owned());
+    }
+    for d in docs {
+        let Err(real) = d.parse::<toml_edit::DocumentMut>() else { continue };
+        let e2 = te::verif_make(real.message().to_owned(), Some(d.clone()), real.span());
+        assert_eq!(real.to_string(), e2.to_string(), "{d:?}");
+        n += 1;
+    }
+    assert!(n > 300, "{n}");
+}
